@@ -272,8 +272,43 @@ class Parser:
         if t.kind == 'id':
             if t.text in ('true', 'false'):
                 return ('bool', t.text == 'true', t.line)
+            if t.text == 'if' and not self.at('let'):
+                # `if c { e } else { e }` used for its value: both blocks are single expressions (an `else if` chain nests)
+                c = self.expr(no_struct=True)
+                self.expect('{')
+                a = self.expr()
+                if not self.at('}'):
+                    bad('`if` in expression position whose block is not a single expression', t.line)
+                self.next()
+                if not self.at('else'):
+                    bad('`if` in expression position without `else`', t.line)
+                self.next()
+                if self.at('if'):
+                    b = self.p_primary(ns)
+                else:
+                    self.expect('{')
+                    b = self.expr()
+                    if not self.at('}'):
+                        bad('`if` in expression position whose block is not a single expression', t.line)
+                    self.next()
+                return ('ifexpr', c, a, b, t.line)
             if t.text in ('if', 'match', 'loop', 'while', 'for', 'unsafe', 'move', 'return', 'break', 'continue', 'let', 'as'):
                 bad('`%s` in expression position' % t.text, t.line)
+            if t.text == 'matches' and self.at('!') and self.peek(1).text == '(':
+                self.next()
+                self.next()
+                scrut = self.expr()
+                self.expect(',')
+                pats = [self.pattern()]
+                while self.at('|'):
+                    self.next()
+                    pats.append(self.pattern())
+                if self.at('if'):
+                    bad('`matches!` with a guard', t.line)
+                if self.at(','):
+                    self.next()
+                self.expect(')')
+                return ('matches', scrut, pats, t.line)
             path = [t.text]
             while self.at('::'):
                 self.next()
@@ -289,7 +324,12 @@ class Parser:
                 fields = []
                 while not self.at('}'):
                     if self.at('..'):
-                        bad('struct update syntax `..`', self.peek().line)
+                        # struct update `S { f: v, ..base }`: the base is the pseudo-field `..` (must be last)
+                        ut = self.next()
+                        fields.append(('..', self.expr(), ut.line))
+                        if not self.at('}'):
+                            bad('`..base` that is not last in a struct literal', ut.line)
+                        break
                     ft = self.peek()
                     name = self.ident()
                     if self.at(':'):
@@ -839,6 +879,31 @@ class Translator:
             if t in ('str', 'Expr'):
                 return s, t
             bad('`&` of a value of type %s' % t, line)
+        if k == 'ifexpr':
+            (cs, tc), (a, ta), (b, tb) = self.ex(e[1], c), self.ex(e[2], c), self.ex(e[3], c)
+            self.want(tc, 'bool', 'condition of `if`', line)
+            if ta != tb:
+                bad('`if` expression with branches of type %s and %s' % (ta, tb), line)
+            return '(if %s then %s else %s)' % (cs, a, b), ta
+        if k == 'matches':
+            # `matches!(x, Expr::V(..) | ..)`: sub-patterns may only be `_` / `..` (no bindings, no literals)
+            x = e[1]
+            while x[0] in ('deref', 'ref', 'paren'):
+                x = x[1]
+            s, t = self.ex(x, c)
+            self.want(t, 'Expr', 'scrutinee of `matches!`', line)
+            alts = []
+            for p in e[2]:
+                if p[0] == 'wild':
+                    return 'true', 'bool'
+                if p[0] != 'variant' or p[1] not in {v[0] for v in VARIANTS}:
+                    bad('`matches!` pattern', line)
+                subs = p[3].values() if isinstance(p[3], dict) else p[3]
+                if any(x is not None for x in subs):
+                    bad('`matches!` pattern with a binding or a literal', line)
+                templ = [v[3] for v in VARIANTS if v[0] == p[1]][0]
+                alts.append(' '.join([templ.split()[0]] + ['_'] * (len(templ.split()) - 1)))
+            return '(match %s with%s | _ => false)' % (s, ''.join(' | %s => true' % a for a in alts)), 'bool'
         if k == 'deref':
             bad('`*` dereference in an expression', line)
         if k == 'index':
